@@ -1,10 +1,113 @@
 import BFL.Driver.Proto
-/- Driver entries of this group (stub: no operation handled yet). -/
+import BFL.Model.AnyBox
+/-
+Driver entries of the `any` container (C20).
+
+  anyseq <n> <F|L> <op> <op> …
+
+runs the operation sequence on the model from the initial state (a pool of n destroyed
+containers), printing per operation its result, the probe counters, and — after every operation
+(`F`) or after the last one only (`L`) — the view of every slot; then destroys all containers and
+prints the final counters and the number of cells still allocated.
+
+Operation tokens (fields separated by `:`; cat = l|c|r|x for T&, const T&, T&&, const T&&;
+tag = i|d|s|m|p; form = l|c|r|m):
+  df:k  ca:k:src:cat  cv:k:cat:tag:code  aa:a:b:cat  av:a:cat:tag:code  rs:a  sw:a:b:free
+  ds:a  pk:a:tag:code  pr:a:tag:code  vc:a:tag:form  pc:a|n:tag:const
+-/
 namespace BFL.DriverAnyBox
-open BFL BFL.Proto
+open BFL BFL.Proto BFL.AnyBox
+
+def tagOf? : String → Option Tag
+  | "i" => some .int | "d" => some .dbl | "s" => some .str | "m" => some .mat | "p" => some .probe
+  | _ => none
+
+def tagStr : Tag → String
+  | .int => "i" | .dbl => "d" | .str => "s" | .mat => "m" | .probe => "p"
+
+def catOf? : String → Option Cat
+  | "l" => some .lref | "c" => some .clref | "r" => some .rref | "x" => some .crref
+  | _ => none
+
+def formOf? : String → Option VForm
+  | "l" => some .lval | "c" => some .clval | "r" => some .rval | "m" => some .rvalMove
+  | _ => none
+
+def flagOf? : String → Option Bool
+  | "0" => some false | "1" => some true | _ => none
+
+def parseOp (tok : String) : Option Op :=
+  match tok.splitOn ":" with
+  | ["df", k] => do pure (.dflt (← k.toNat?))
+  | ["ca", k, s, c] => do pure (.ctorAny (← k.toNat?) (← s.toNat?) (← catOf? c))
+  | ["cv", k, c, t, v] => do pure (.ctorVal (← k.toNat?) (← catOf? c) ⟨← tagOf? t, ← v.toInt?⟩)
+  | ["aa", a, b, c] => do pure (.asgnAny (← a.toNat?) (← b.toNat?) (← catOf? c))
+  | ["av", a, c, t, v] => do pure (.asgnVal (← a.toNat?) (← catOf? c) ⟨← tagOf? t, ← v.toInt?⟩)
+  | ["rs", a] => do pure (.reset (← a.toNat?))
+  | ["sw", a, b, f] => do pure (.swap (← a.toNat?) (← b.toNat?) (← flagOf? f))
+  | ["ds", a] => do pure (.destroy (← a.toNat?))
+  | ["pk", a, t, v] => do pure (.poke (← a.toNat?) ⟨← tagOf? t, ← v.toInt?⟩)
+  | ["pr", a, t, v] => do pure (.pokeRef (← a.toNat?) ⟨← tagOf? t, ← v.toInt?⟩)
+  | ["vc", a, t, f] => do pure (.castVal (← a.toNat?) (← tagOf? t) (← formOf? f))
+  | ["pc", a, t, c] => do
+      let t ← tagOf? t
+      let c ← flagOf? c
+      if a = "n" then pure (.castPtr none t c) else pure (.castPtr (some (← a.toNat?)) t c)
+  | _ => none
+
+def ovStr : Option Val → String
+  | none => "x"
+  | some v => toString v.code
+
+def outStr : Out → String
+  | .invalid => "inv"
+  | .done => "ok"
+  | .src v => "src=" ++ toString v.code
+  | .cast r => "r=" ++ ovStr r
+
+def isProbeCopy : Ev → Bool
+  | .copy .probe => true
+  | _ => false
+
+def isProbeMove : Ev → Bool
+  | .move .probe => true
+  | _ => false
+
+def countersStr (s : St) : String :=
+  "c=" ++ toString (liveOfTag s .probe) ++ "/" ++ toString (countEv s isProbeCopy) ++ "/" ++ toString (countEv s isProbeMove)
+
+def slotStr (s : St) (k : Nat) : String :=
+  match viewSlot s k with
+  | none => "D"
+  | some v =>
+    (if v.hasValue then "1" else "0") ++ (match v.type with | none => "v" | some t => tagStr t) ++ ":" ++
+      ",".intercalate (v.ptr.map ovStr) ++ ":" ++ ",".intercalate (v.cptr.map ovStr) ++ ":" ++
+      ",".intercalate (v.ref.map ovStr)
+
+def viewStr (n : Nat) (s : St) : List String := (List.range n).map (slotStr s)
+
+def runSeq (n : Nat) (full : Bool) : St → List Op → List String → List String
+  | s, [], acc =>
+    let s' := destroyAll n s
+    (("leak=" ++ toString (liveCells s').length) :: countersStr s' :: "END" :: acc).reverse
+  | s, op :: rest, acc =>
+    let r := step n s op
+    let acc := countersStr r.1 :: outStr r.2 :: acc
+    let acc := if full || rest.isEmpty then (viewStr n r.1).reverse ++ acc else acc
+    runSeq n full r.1 rest acc
+
+def anyseq : R String := do
+  let n ← nat
+  let mode ← tok
+  let full ← (match mode with | "F" => pure true | "L" => pure false | _ => failure : R Bool)
+  let toks ← get
+  set ([] : List String)
+  let ops ← (toks.mapM parseOp : Option (List Op))
+  pure (join (runSeq n full init ops []))
 
 def handle (op : String) (args : List String) : Option String :=
   match op with
+  | "anyseq" => some ((run anyseq args).getD "bad-args")
   | _ => none
 
 end BFL.DriverAnyBox
